@@ -1,4 +1,5 @@
-import LoguruModel.Markup.Model
+import LoguruModel.Markup.Spec
+import LoguruModel.Markup.Format
 import LoguruModel.Driver
 open Markup Py
 
@@ -16,6 +17,36 @@ def encSegs (segs : List Seg) (tail : Str) : String :=
 def exS : Except Err Str → String
   | .ok s => "ok " ++ encTok s
   | .error e => "err " ++ toString e
+
+def decList (s : String) : Option (List Str) :=
+  if s = "_" then some [] else
+  (s.splitOn ",").foldr (fun t acc => match decTok t, acc with
+    | some x, some a => some (x :: a)
+    | _, _ => none) (some [])
+
+/-- chunk = lit;F|N;name;conv;spec -/
+def decChunk (s : String) : Option Chunk :=
+  match s.splitOn ";" with
+  | [lit, "N"] => (decTok lit).map fun l => ⟨l, none⟩
+  | [lit, "F", name, conv, spec] =>
+    match decTok lit, decTok name, decTok conv, decTok spec with
+    | some l, some n, some c, some sp => some ⟨l, some ⟨n, c.head?, sp⟩⟩
+    | _, _, _, _ => none
+  | _ => none
+
+def decChunks (s : String) : Option (List Chunk) :=
+  if s = "_" then some [] else
+  (s.splitOn ",").foldr (fun t acc => match decChunk t, acc with
+    | some x, some a => some (x :: a)
+    | _, _ => none) (some [])
+
+/-- feed = R|M followed by the text token -/
+def decFeeds (s : String) : Option (List (Str × Bool)) :=
+  if s = "_" then some [] else
+  (s.splitOn ",").foldr (fun t acc =>
+    match decTok (t.drop 1).toString, acc with
+    | some x, some a => some ((x, t.startsWith "R") :: a)
+    | _, _ => none) (some [])
 
 def step (line : String) : String :=
   match line.splitOn " " with
@@ -39,6 +70,24 @@ def step (line : String) : String :=
     match decTok t with
     | some t => exS (ansify t)
     | none => "bad-op"
+  | ["unansi", t] =>
+    match decTok t with
+    | some t => encTok (Spec.unansi t)
+    | none => "bad-op"
+  | ["sfmt", spec, t] =>
+    match decTok spec, decTok t with
+    | some sp, some t => exS (strFormat sp t)
+    | _, _ => "bad-op"
+  | ["pair", chunks, feeds, color, vals] =>
+    match decChunks chunks, decFeeds feeds, decTok color, decList vals with
+    | some ch, some fs, some col, some vs =>
+      match ansify col with
+      | .error e => "err-level " ++ toString e
+      | .ok lvl =>
+        match handlerPair ch fs lvl vs with
+        | .ok (c, p) => "ok " ++ encTok c ++ " " ++ encTok p
+        | .error e => "err " ++ toString e
+    | _, _, _, _ => "bad-op"
   | ["ws", n] =>
     match n.toNat? with
     | some n => if isWs (Char.ofNat n) then "1" else "0"
